@@ -6,6 +6,7 @@ package sim
 
 import (
 	"context"
+	"errors"
 	"fmt"
 	"time"
 
@@ -138,19 +139,39 @@ type recNet struct {
 	life  int
 }
 
-func (rn *recNet) Protect(id peer.ID, tag string)        { rn.inner.Protect(id, tag) }
-func (rn *recNet) Unprotect(id peer.ID, tag string) bool { return rn.inner.Unprotect(id, tag) }
+func (rn *recNet) Protect(id peer.ID, tag string) {
+	if rn.life == rn.n.life {
+		rn.inner.Protect(id, tag)
+	}
+}
+func (rn *recNet) Unprotect(id peer.ID, tag string) bool {
+	if rn.life == rn.n.life {
+		return rn.inner.Unprotect(id, tag)
+	}
+	return false
+}
 func (rn *recNet) ID() peer.ID                           { return rn.inner.ID() }
 func (rn *recNet) ConnectTo(ctx context.Context, p peer.ID) error {
+	if rn.life != rn.n.life {
+		return errProcessDead
+	}
 	return rn.inner.ConnectTo(ctx, p)
 }
 func (rn *recNet) ConnectWithRetry(ctx context.Context, p peer.ID) error {
+	if rn.life != rn.n.life {
+		return errProcessDead
+	}
 	return rn.inner.ConnectWithRetry(ctx, p)
 }
 func (rn *recNet) Protocol(ctx context.Context, p peer.ID) (protocol.ID, error) {
 	return rn.inner.Protocol(ctx, p)
 }
+var errProcessDead = errors.New("simnet: this process has crashed")
+
 func (rn *recNet) SendMessage(ctx context.Context, p peer.ID, msg datatransfer.Message) error {
+	if rn.life != rn.n.life {
+		return errProcessDead // a crashed instance can no longer reach the network
+	}
 	sum := Summarise(msg)
 	n := rn.n
 	n.wireSeq++
@@ -184,15 +205,26 @@ func (rr *recReceiver) rec(sender peer.ID, msg datatransfer.Message) {
 	n.Wire = append(n.Wire, WireRec{Step: n.w.S.Steps, Dir: "recv", Peer: sender, Sum: sum, Life: rr.rn.life, Carrier: "libp2p"})
 	n.w.Logf("%s recv <- %s: %s", n.Name, short(sender), sum)
 }
+func (rr *recReceiver) dead() bool { return rr.rn.life != rr.rn.n.life }
+
 func (rr *recReceiver) ReceiveRequest(ctx context.Context, sender peer.ID, incoming datatransfer.Request) {
+	if rr.dead() {
+		return
+	}
 	rr.rec(sender, incoming)
 	rr.inner.ReceiveRequest(ctx, sender, incoming)
 }
 func (rr *recReceiver) ReceiveResponse(ctx context.Context, sender peer.ID, incoming datatransfer.Response) {
+	if rr.dead() {
+		return
+	}
 	rr.rec(sender, incoming)
 	rr.inner.ReceiveResponse(ctx, sender, incoming)
 }
 func (rr *recReceiver) ReceiveRestartExistingChannelRequest(ctx context.Context, sender peer.ID, incoming datatransfer.Request) {
+	if rr.dead() {
+		return
+	}
 	rr.rec(sender, incoming)
 	rr.inner.ReceiveRestartExistingChannelRequest(ctx, sender, incoming)
 }
@@ -292,6 +324,7 @@ type Node struct {
 	gsHist       []*GS
 	AllGSCalls   []GSCall
 	CrashedLives map[int]bool // lives that began after a crash (not a clean stop)
+	LifeStart    map[int]int  // scheduling step at which each life began
 }
 
 // collectGS flattens the graphsync API call logs of all lives.
@@ -319,6 +352,10 @@ func (w *World) NewNode(r *RunCtx, name string, cfg NodeCfg) *Node {
 // Start builds a fresh manager (new life) on the node's current disk.
 func (n *Node) Start() bool {
 	simrt.SetLabel(n.Name)
+	if n.LifeStart == nil {
+		n.LifeStart = map[int]int{}
+	}
+	n.LifeStart[n.life] = n.w.S.Steps
 	n.GS = n.w.GS.NewGS(n.ID, n.Store.LinkSystem())
 	n.GS.Label = n.Name
 	n.gsHist = append(n.gsHist, n.GS)
